@@ -3,7 +3,6 @@ package main
 // C10 A write that fails or is aborted leaves no trace.
 
 import (
-	"sort"
 	"fmt"
 	"go/ast"
 	"go/constant"
@@ -11,6 +10,7 @@ import (
 	"go/types"
 	"golang.org/x/tools/go/packages"
 	"os"
+	"sort"
 	"strings"
 )
 
